@@ -422,6 +422,13 @@ func runC13(c *core.Ctx) {
 	c.Doc("tokens-per-cycle", 1, "pacer inner loop: trip count ops, one cancellable token send per iteration")
 	c.Doc("one-wait-per-cycle", 1, "each pacer cycle waits exactly once on time.After(interval)")
 	c.Doc("token-per-element", 1, "data goroutine: one token, then one cancellable send(out, a), per element")
+	// the parallel package's Throttling is this Throttling: it forwards its arguments in order and adds nothing (shared with C09)
+	c.Doc("delegation", 1, "fork.Throttling forwards to pipe.Throttling, arguments in order")
+	if c.W.Func("pipe/fork", "Throttling") != nil {
+		delegation(c, "Throttling")
+	} else {
+		c.Ok("delegation", "fork.Throttling", 0, "package fork has no Throttling: nothing wraps pipe.Throttling")
+	}
 	s := stageOf(c, "token-cap", "pipe", "Throttling")
 	if s == nil {
 		return
